@@ -433,6 +433,9 @@ class CGWorld(World):
                                     {"k": kk, "diff": dr, "tol": tolr})
                 z = rr if Pd is None else Pd @ rr
                 rz = float(np.real(np.vdot(rr, z)))
+                if isinstance(alg.resid, complex) or not np.isfinite(alg.resid):
+                    raise Violation("resid_not_rz", "ConjugateGradient.update", step,
+                                    {"k": kk, "resid": repr(alg.resid), "rz": rz})
                 tolz = fl["rz"] * normP * (np.linalg.norm(rr) ** 2 + (fl["res"] * normA * st["maxxn"]) ** 2) + 1e-300
                 res.note_max("resid_rz_over_tol." + prec, abs(alg.resid ** 2 - rz) / tolz)
                 if abs(alg.resid ** 2 - rz) > tolz:
@@ -451,7 +454,7 @@ class CGWorld(World):
             elif a == "X":
                 val = codec.qdigest(alg.x.copy())
             else:
-                val = codec.fnum(alg.resid, 6)
+                val = codec.fnum(alg.resid, 6) if not isinstance(alg.resid, complex) else repr(alg.resid)
             stats["steps"] += 1
             if common.state_digest(alg, STATE) != d0 or codec.bytes_digest(x_caller) != xd:
                 raise Violation("query_changed_state", "ConjugateGradient.%s" % {"D": "done", "X": "x", "R": "resid"}[a],
